@@ -34,6 +34,9 @@ CHECKS = {
    text='For all finite IEEE doubles start/increment in the stated ranges and each listed count, the table sizes are decided bit-precisely in QF_FP on the real grid construction and the point values under the standard model of floating-point arithmetic; far-field angle tables likewise.',
    design='DESIGN.md 3 (C16)',
    technique='symbolic execution of the real grid/angle code on z3 Float64 terms (counts, bit-precise) and on reals with per-operation rounding-error variables (values); z3 decides per count'),
+ 'C18': dict(
+   text='The real BASIC-input writers run on symbolic voltages, loads, Laplace coefficients, frequency and media constants; a reference reader (validated on all 48 golden .mini files) consumes the answers in MININEC-3 prompt order; z3 decides for all values that frequency, media, sources (magnitude and phase in degrees rebuild the voltage), loads and Laplace units (versions 9/12/13) are those of the model; wires rebuilt through the public API give the same pulses.',
+   design='DESIGN.md 3 (C18)'),
  'C19': dict(
    text='util.format_float runs unstubbed on a symbolic real: for every real with 1e-30<=|f|<=1e12 (and 0), both modes and signs, z3 decides per path (decade, digit count, format) in mixed integer/real arithmetic that the text read back is within 5e-6 relative / 1e-6 absolute, at most 9 characters with a fraction, never -0. The report writers run on symbolic currents/voltages/fields: every printed number is the value its row is about and the report is structurally complete. Two open findings (V/m table precision).',
    design='DESIGN.md 3 (C19)'),
